@@ -26,7 +26,9 @@ RULE = ("hist: one real Process over a fake /proc driven by random sequences of 
         "attrs collections whose elements are arbitrary hashable values (str, int, None, bool, bytes, float, NaN, tuples, instances "
         "with unusual __lt__/__repr__/__hash__, a str subclass), 1-6 unacceptable ones mixed with valid names and duplicates, in "
         "list/tuple/set/frozenset, through Process.as_dict and through process_iter(attrs=...); live: a real stopped child on the "
-        "real /proc, histories over two Process objects, threads, process_iter, a change made by the child while a block is open. "
+        "real /proc, histories over two Process objects, threads, process_iter, a change made by the child while a block is open; "
+        "copyhist: copy.copy / deepcopy / pickle of the object inside and outside blocks, then kernel changes and queries of original "
+        "and copies inside / outside their own blocks (copy protocol of the tree probed on every run). "
         "Non-trivial = contains at least one method call; distinct = distinct canonical case hash.")
 TRUSTED = ["correspondence harness props/C16.py, props/_c16_sched.py (sys.settrace line scheduler), props/_c16_live.py (real /proc), pv/ (fake /proc)",
            "read counting by wrapping psutil._pslinux.bcat/open_binary and attributing by calling frame",
@@ -55,6 +57,7 @@ MNAMES = sorted(METHODS)
 PID = 4242
 _IMPL_DIR = None
 _ORDER_ALL = None
+_COPY_TABLE = None
 
 
 # ------------------------------------------------------------------ translator part
@@ -66,7 +69,25 @@ def memo(cls):
     # functools.wraps copies the decorator's attributes outwards, so an outer wrap_exceptions still shows them
     return sorted(n for n in dir(cls) if callable(getattr(cls, n, None)) and hasattr(getattr(cls, n), "cache_activate")
                   and hasattr(getattr(cls, n), "cache_deactivate"))
-out = {"file": psutil.__file__, "all": list(psutil._as_dict_attrnames), "orders": [],
+def copy_probe():
+    # What copy.copy / copy.deepcopy / a pickle round trip of a Process object give, taken inside and outside a oneshot()
+    # block: None if the operation raises, else [same platform object?, keeps the front-level _cache?, keeps a platform-level _cache?]
+    import copy, pickle, contextlib
+    out = {}
+    for how in ("copy", "deepcopy", "pickle"):
+        for where in ("in", "out"):
+            p = psutil.Process()
+            try:
+                with (p.oneshot() if where == "in" else contextlib.nullcontext()):
+                    p.ppid()
+                    p.name()
+                    c = copy.copy(p) if how == "copy" else copy.deepcopy(p) if how == "deepcopy" else pickle.loads(pickle.dumps(p))
+                    out[how + "_" + where] = [c._proc is p._proc, hasattr(c, "_cache"),
+                                             (c._proc is not p._proc) and hasattr(c._proc, "_cache")]
+            except Exception:
+                out[how + "_" + where] = None
+    return out
+out = {"file": psutil.__file__, "all": list(psutil._as_dict_attrnames), "orders": [], "copy": copy_probe(),
        "memo_front": memo(psutil.Process), "memo_platform": memo(psutil._psplatform.Process)}
 assert isinstance(psutil._as_dict_attrnames, (set, frozenset)) and psutil._as_dict_attrnames
 for kind, names in req:
@@ -103,12 +124,13 @@ def _orders(reqs):
 
 def gen_tables(impl_dir, out_dir):
     """coq/Gen/C16_Tables.v: psutil._as_dict_attrnames of the tree under test (sorted)."""
-    global _IMPL_DIR, _ORDER_ALL
+    global _IMPL_DIR, _ORDER_ALL, _COPY_TABLE
     _IMPL_DIR = impl_dir
     d = _orders([])
     if not os.path.realpath(d["file"]).startswith(os.path.realpath(impl_dir)):
         raise RuntimeError("C16 table dump imported psutil from %s" % d["file"])
     _ORDER_ALL = d["all"]
+    _COPY_TABLE = d["copy"]
     names = sorted(d["all"])
     rows = ";\n   ".join("%s (* %s *)" % (G.by(n), n) for n in names)
 
@@ -121,7 +143,13 @@ def gen_tables(impl_dir, out_dir):
            "(* methods of psutil.Process decorated with memoize_when_activated (they carry cache_activate / cache_deactivate) *)\n"
            "Definition memoized_front : list (list Z) :=\n  %s.\n\n"
            "(* the same for the platform class psutil._psplatform.Process *)\n"
-           "Definition memoized_platform : list (list Z) :=\n  %s.\n" % (rows, lst(d["memo_front"]), lst(d["memo_platform"])))
+           "Definition memoized_platform : list (list Z) :=\n  %s.\n\n"
+           "(* copy.copy / copy.deepcopy / pickle round trip of a Process object, each inside / outside a block: None = raises, else\n"
+           "   (same platform object, keeps the front-level _cache, keeps a platform-level _cache) *)\n"
+           "Definition copy_table : list (option (bool * bool * bool)) :=\n  [%s].\n"
+           % (rows, lst(d["memo_front"]), lst(d["memo_platform"]),
+              "; ".join("None" if d["copy"][h] is None else "Some (%s, %s, %s)" % tuple(G.bo(x) for x in d["copy"][h])
+                        for h in COPY_KEYS)))
     os.makedirs(out_dir, exist_ok=True)
     path = os.path.join(out_dir, "C16_Tables.v")
     old = open(path).read() if os.path.exists(path) else None
@@ -341,6 +369,8 @@ def gen_cases(rng, tier):
         cases += ad
         cases += _gen_any(rng, {"quick": 80, "thorough": 1500, "search": 400}[tier], d["all"])
     cases += _gen_live(rng, {"quick": 8, "thorough": 40, "search": 8}[tier])
+    cases += _gen_copy(rng, {"quick": 60, "thorough": 1200, "search": 300}[tier],
+                       _COPY_TABLE or COPY_TABLE_OF_RECORD)
     return cases
 
 
@@ -447,6 +477,67 @@ def _gen_live(rng, n):
             else:
                 ops.append([ob, "call", rng.choice(names)])
         out.append({"kind": "live", "cls": "live", "ops": ops, "threads": i % 3 == 0, "change": i % 2 == 0, "iter": i % 4 == 1})
+    return out
+
+
+# ------------------------------------------------------------------ copies of a Process object
+HOWS = ["copy", "deepcopy", "pickle"]
+COPY_KEYS = ["copy_in", "copy_out", "deepcopy_in", "deepcopy_out", "pickle_in", "pickle_out"]
+COPY_TABLE_OF_RECORD = {"copy_in": [True, False, False], "copy_out": [True, False, False], "deepcopy_in": None,
+                        "deepcopy_out": None, "pickle_in": None, "pickle_out": None}
+
+
+def _gen_copy(rng, n, table):
+    """Histories over several objects: copy inside / outside a block, change the kernel state, query original and copy
+    inside / outside blocks.  A copy always takes the next object index; if the operation raises there is no object there."""
+    out = []
+    names = [m for m in MNAMES]
+    for i in range(n):
+        how = HOWS[i % 3] if i % 2 == 0 else rng.choice(HOWS)
+        x, y = rng.choice(names), rng.choice(names)
+        ver = {s_: 1 for s_ in SRC}
+
+        def bump(srcs=None):
+            ops_ = []
+            for s_ in (srcs or SRC):
+                ver[s_] += 1
+                ops_.append(["on", 0, ["set", s_, ["A", ver[s_]]]])
+            return ops_
+        shape = i % 6
+        if shape == 0:      # copy inside a block, the original leaves, the kernel changes, the copy is asked (for ever)
+            ops = [["on", 0, ["enter"]], ["on", 0, ["call", x]], ["on", 0, ["call", y]], ["copy", 0, how], ["on", 0, ["exit"]]] + bump() + [
+                ["on", 1, ["call", x]], ["on", 1, ["call", y]], ["on", 0, ["call", x]]] + bump() + [
+                ["on", 1, ["call", x]], ["on", 1, ["enter"]], ["on", 1, ["call", y]], ["on", 1, ["exit"]], ["on", 1, ["call", y]]]
+        elif shape == 1:    # copy outside a block
+            ops = [["on", 0, ["call", x]], ["copy", 0, how], ["on", 0, ["enter"]], ["on", 0, ["call", x]]] + bump() + [
+                ["on", 1, ["call", x]], ["on", 1, ["enter"]], ["on", 1, ["call", y]], ["on", 0, ["call", y]], ["on", 1, ["exit"]],
+                ["on", 0, ["call", x]], ["on", 0, ["exit"]]] + bump() + [["on", 0, ["call", x]], ["on", 1, ["call", x]]]
+        elif shape == 2:    # the copy opens and leaves its own block while the original is inside
+            ops = [["on", 0, ["enter"]], ["on", 0, ["call", x]], ["copy", 0, how], ["on", 1, ["enter"]], ["on", 1, ["call", y]],
+                   ["on", 1, ["raise"]]] + bump() + [["on", 0, ["call", x]], ["on", 0, ["call", y]], ["on", 0, ["exit"]],
+                   ["on", 0, ["call", x]], ["on", 1, ["call", x]]]
+        elif shape == 3:    # a copy of a copy, nested blocks
+            ops = [["on", 0, ["enter"]], ["on", 0, ["enter"]], ["on", 0, ["call", x]], ["copy", 0, how], ["copy", 1, rng.choice(HOWS)],
+                   ["on", 0, ["exit"]], ["on", 0, ["exit"]]] + bump() + [["on", 2, ["call", x]], ["on", 1, ["call", x]],
+                   ["on", 0, ["call", x]], ["on", 2, ["enter"]], ["on", 2, ["call", y]], ["on", 2, ["exit"]]]
+        else:
+            ops, nobj = [], 1
+            for _ in range(rng.choice([10, 16, 24])):
+                k = rng.random()
+                ob = rng.randrange(nobj)
+                if k < 0.15 and nobj < 4:
+                    ops.append(["copy", ob, rng.choice(HOWS)]); nobj += 1
+                elif k < 0.30:
+                    ops.append(["on", ob, ["enter"]])
+                elif k < 0.42:
+                    ops.append(["on", ob, ["exit"]])
+                elif k < 0.46:
+                    ops.append(["on", ob, ["raise"]])
+                elif k < 0.60:
+                    ops += bump([rng.choice(SRC)])
+                else:
+                    ops.append(["on", ob, ["call", rng.choice(names)]])
+        out.append({"kind": "copyhist", "cls": "copy-%s-%d" % (how, shape), "init": [["A", 1]] * 4, "ops": ops, "table": table})
     return out
 
 
@@ -565,6 +656,18 @@ def coq_term(case):
     if k == "sched":
         progs = G.lst([_ops(p) for p in case["progs"]])
         return "run_threads %s %s %s [%s]%%nat" % (VARIANT, _init(case), progs, ";".join(str(t) for t in case["sched"]))
+    if k == "copyhist":
+        if _COPY_TABLE is not None:
+            case["table"] = _COPY_TABLE      # always the copy protocol of the tree under test (corpus / witness cases too)
+        ms = []
+        for o in case["ops"]:
+            if o[0] == "on":
+                ms.append("MOn %d%%nat %s" % (o[1], _op(o[2])))
+            else:
+                ds = ["None" if d is None else "(Some (mkCd %s %s %s))" % tuple(G.bo(x) for x in d)
+                      for d in (case["table"][o[2] + "_in"], case["table"][o[2] + "_out"])]
+                ms.append("MCopy %d%%nat %s %s" % (o[1], ds[0], ds[1]))
+        return "run_copy %s %s" % (_init(case), G.lst(ms))
     if k == "live":
         hs = [_live_model_ops(case, ob) for ob in (0, 1)]
         return "JL [%s]" % "; ".join("run_hist %s [SAvail 1; SAvail 1; SAvail 1; SAvail 1] %s %d%%nat" % (VARIANT, _ops(h), 10 * len(h) + 6)
@@ -612,12 +715,26 @@ def coq_struct(case, raw):
                 "model_ok": all(r[3] for th in raw[0] for r in th), "spec": None}
     if k in ("asdict", "asdict_any"):
         return {"model": [raw[0], raw[1], raw[2]], "spec": raw[3]}
+    if k == "copyhist":
+        return {"model": {"res": [[r[0], r[1]] for r in raw[0]], "ptrs": raw[1]}, "spec": None,
+                "allowed": [r[2] for r in raw[0]], "model_ok": all(r[3] for r in raw[0])}
     if k == "live":
         return {"model": T("Live"), "spec": None, "counts": [[x[1] for x in r[5]] for r in raw], "done": [r[1] for r in raw]}
     raise ValueError(k)
 
 
 def finding_key(case, coq):
+    if case["kind"] == "copyhist" and not coq.get("model_ok", True):
+        # the tree's own copy protocol (as probed) lets a copy answer from a block that is no longer open
+        t = case["table"]
+        others = any(o[0] == "copy" and o[2] != "copy" and (t.get(o[2] + "_in") or t.get(o[2] + "_out")) for o in case["ops"])
+        if t.get("copy_in") == [True, True, False] and t.get("copy_out") == [True, False, False] and not others:
+            return "shallow-copy-keeps-front-cache"
+        if t.get("copy_in") == [True, False, False] and t.get("copy_out") == [True, False, False] and not others:
+            # the copy refers to the same platform object: a block entered / left on one of them resets / deletes the
+            # platform-level cache of a block the other one is still in
+            return "shallow-copy-shares-platform-object"
+        return None
     if case["kind"] == "sched" and not coq.get("model_ok", True):
         # the model (code as written) itself gives an answer the property does not allow: a value read before
         # the current block, stored into the block's cache by a caller that looked up an earlier block's cache
@@ -644,6 +761,18 @@ def judge(case, coq, impl):
     errs = impl.get("errs") if isinstance(impl, dict) else (impl[3] if isinstance(impl, list) and len(impl) > 3 else None)
     if errs:
         return Verdict("violation", "oneshot() itself raised while being entered / left: %r" % (errs,))
+    if k == "copyhist":
+        if len(impl["res"]) != len(coq["allowed"]) and impl == coq["model"]:
+            return Verdict("corr", "result count")
+        for i, r in enumerate(impl["res"]):
+            al = coq["allowed"][i] if i < len(coq["allowed"]) and i < len(coq["model"]["res"]) and coq["model"]["res"][i][0] == r[0] else None
+            if al is not None and r[1] not in al:
+                return Verdict("violation", "answer #%d (object %d) is %r; the property allows only %r (the answer this source already "
+                               "gave in the object's own open block, else what the kernel held since the earliest open block "
+                               "on its platform object, else now)" % (i, r[0], r[1], al))
+        if impl != coq["model"]:
+            return Verdict("corr", "impl != model")
+        return Verdict("ok")
     if k == "live":
         if impl.get("t") == "LiveOk":
             return Verdict("ok")
@@ -807,12 +936,12 @@ class FakeTarget:
         code = CALLX[name]
         return Val(code if raw == expected else 9000 + code), raw
 
-    def call(self, m, with_raw=False):
-        r, raw = self._call(m)
+    def call(self, m, with_raw=False, proc=None):
+        r, raw = self._call(m, proc)
         return (r, raw) if with_raw else r
 
-    def _call(self, m):
-        p, px = self.proc, self.px
+    def _call(self, m, proc=None):
+        p, px = proc or self.proc, self.px
         raw = None
         try:
             if m == "name":
@@ -1060,6 +1189,61 @@ def impl_run(case, coq, env):
         return run_live(case, coq, psutil, LIVE, LIVE_FILES, _live_model_ops)
     tgt = FakeTarget(env["work"], case["init"])
     try:
+        if k == "copyhist":
+            import copy
+            import pickle
+            objs, stacks, res, errs = [tgt.proc], [[]], [], []
+            for o in case["ops"]:
+                if o[0] == "copy":
+                    src = objs[o[1]] if o[1] < len(objs) else None
+                    new = None
+                    if src is not None:
+                        try:
+                            new = (copy.copy(src) if o[2] == "copy" else copy.deepcopy(src) if o[2] == "deepcopy"
+                                   else pickle.loads(pickle.dumps(src)))
+                        except Exception:  # noqa   an operation that raises creates no object
+                            new = None
+                    objs.append(new)
+                    stacks.append([])
+                    continue
+                ob, op = o[1], o[2]
+                if op[0] in ("set", "gone"):
+                    tgt.write(op[1], op[2]) if op[0] == "set" else tgt.gone()
+                    continue
+                p = objs[ob] if ob < len(objs) else None
+                if p is None:
+                    continue
+                try:
+                    if op[0] == "enter":
+                        cm = p.oneshot()
+                        cm.__enter__()
+                        stacks[ob].append(cm)
+                    elif op[0] == "exit":
+                        if stacks[ob]:
+                            stacks[ob].pop().__exit__(None, None, None)
+                    elif op[0] == "raise":
+                        while stacks[ob]:
+                            cm = stacks[ob].pop()
+                            try:
+                                cm.__exit__(BodyError, BodyError("raised in the body"), None)
+                            except BodyError:
+                                pass
+                    elif op[0] == "call":
+                        res.append([ob, tgt.call(op[1], proc=p)])
+                except BaseException as e:  # noqa
+                    if isinstance(e, (KeyboardInterrupt, SystemExit)):
+                        raise
+                    errs.append([op[0], exc_name(e)])
+            out = {"res": res, "ptrs": [None if x is None else [hasattr(x, "_cache"), hasattr(x._proc, "_cache")] for x in objs]}
+            if errs:
+                out["errs"] = errs
+            for ob, st in enumerate(stacks):
+                while st:
+                    try:
+                        st.pop().__exit__(None, None, None)
+                    except Exception:  # noqa
+                        pass
+            return out
         if k == "hist":
             r = Runner(tgt)
             for o in case["ops"]:
@@ -1164,7 +1348,7 @@ def impl_run(case, coq, env):
 
 
 MANIFEST = {
-    "text": "Theorems (Coq 8.16, 26, all closed under the global context; coq/Properties/C16.v). One thread, every history of "
+    "text": "Theorems (Coq 8.16, 32, all closed under the global context; coq/Properties/C16.v). One thread, every history of "
             "enter/exit/nested enter/exception in the body/call/source change (new content, denied, process gone): the model "
             "of memoize_when_activated + oneshot() + the Linux memoized readers produces, call by call, the answers and per-call "
             "read counts of a ghost machine written from the property text (first successful read in the block is kept, "
